@@ -41,7 +41,7 @@ def _unfmt(rs):
         ops = []
         for s in r:
             m = _OP.match(s)
-            ps = [p for p in m.group(3).split(",") if p != ""] if m.group(3) else []
+            ps = [p for p in re.split(r",(?=[icfslp?]:)", m.group(3)) if p != ""] if m.group(3) else []   # position marks contain commas
             ops.append({"off": int(m.group(1)), "op": m.group(2), "ps": ps, "tgt": int(m.group(4)), "pseudo": False})
         out.append(ops)
     return out
